@@ -319,6 +319,9 @@ MUTANTS = [
      """            f = open(args.outputdirectory + '/' + str(instance_number) + 
             '.txt', 'w')""",
      """            f = open((args.outputdirectory + '/%d.txt') % instance_number, 'w')"""),
+    ('c08_quotas_by_float_division', 'C08', GSH,
+     'quotient = int(sum_q // n)',
+     'quotient = int(sum_q / n)'),
     ('c08_end_of_list_test_by_identity', 'C08', GSH,
      "        elif i == len(pref_list) - 1 and in_tie:",
      "        elif i is (len(pref_list) - 1) and in_tie:"),
